@@ -61,6 +61,7 @@ type DeclCfg struct {
 	NsDelims     []string
 	EnvDelims    []string
 	NoHelpNames  bool // avoid -h / --help even without HelpFlag
+	NonASCIICmd  bool // some command names and aliases contain non-ASCII characters
 	PDefault2    int  // % of scalar options with default tags that get two differing ones (the last wins)
 	PNoFlag      int  // % of structs that get a `no-flag` struct field whose tagged inner fields must NOT become options
 	PProgAttr    int  // % of options whose required/choice/hidden/default-mask marks are set on the flags.Option after scanning
@@ -201,6 +202,9 @@ func (n *namer) genCmdBody(c *Cmd) {
 		for i := 0; i < k; i++ {
 			id := d.NewID()
 			sc := &Cmd{ID: id, Parent: c, Depth: c.Depth + 1, Name: fmt.Sprintf("c%03d", id) + r.Pick([]string{"", "x", "-run", "add"})}
+			if cfg.NonASCIICmd && r.Chance(1, 3) {
+				sc.Name += r.Pick([]string{"é", "öß", "λ", "größe"})
+			}
 			names := n.cmdName[c]
 			if names == nil {
 				names = map[string]bool{}
